@@ -17,12 +17,16 @@ import (
 // C03 No unauthorised debit.
 
 type c03Oracle struct {
-	obs     Obs
-	eoas    map[string]bool // textual address -> known externally owned account
-	blocks  int
-	advOK   int // adversarial (impersonating / forged) transactions that returned code 0 without hurting anyone
-	debits  int // authorised debits observed
-	matured int
+	// the third clause allows a debit of the stake account "of a validator found guilty by an allegation vote in
+	// that block": whether a guilty verdict follows from the recorded votes is judged by the C19 reference model
+	// (run here over the same observations); a verdict it rejects is no authorisation
+	verdicts c19Oracle
+	obs      Obs
+	eoas     map[string]bool // textual address -> known externally owned account
+	blocks   int
+	advOK    int // adversarial (impersonating / forged) transactions that returned code 0 without hurting anyone
+	debits   int // authorised debits observed
+	matured  int
 }
 
 type vRecord struct {
@@ -37,6 +41,12 @@ type svRecord struct {
 }
 
 func (o *c03Oracle) AfterStep(e *core.Engine, idx int, st *core.Step, stepErr error) []core.Violation {
+	for _, v := range o.verdicts.AfterStep(e, idx, st, stepErr) {
+		if v.Oracle == "verdict-needs-share" && strings.HasPrefix(v.Sig, "guilty-below-share") {
+			return []core.Violation{{Property: "C03", Oracle: "debit-needs-signature-or-verdict", Sig: "guilty-verdict-without-the-votes:" + o.obs.SuspectSig(),
+				Msg: "a validator was declared guilty (its stake account is debited by the penalty) although the recorded votes of active validators do not reach the share: " + v.Msg}}
+		}
+	}
 	if st.Kind == "boot" {
 		o.obs.InitGenesis(e)
 		o.eoas = map[string]bool{}
